@@ -234,6 +234,14 @@ def read_file_or_stdin(path: str, settings) -> str:
     if isinstance(path, Path) and path.kind == Path.STDIN:
         try:
             text = sys.stdin.read()
+        except UnicodeDecodeError:
+            # Standard input is decoded strictly under most locales, so bytes that are
+            # not valid text are reported here, the same way as for a file.
+            if settings.mode in ("", "debug"):
+                print(file=sys.stderr)
+            else:
+                print()
+            handle_messages(settings, Messages("non-ASCII byte in file."))
         except (IOError, KeyboardInterrupt):
             # Print to stderr when in interpreter or debug mode, because the output of
             # the HERA program goes to stdout.
